@@ -34,3 +34,23 @@ Theorem C03_source : forall ts_parse : str -> option cfile,
   exists f', ts_parse (roundtrip f) = Some f' /\ flexseq f' = map nrm (flexseq f).
 Proof. exact (fun ts _ Hstable => P20.C03_source ts Hstable). Qed.
 Print Assumptions C03_source.
+
+From F0 Require Import GapLib FmtLib.
+From Dyn Require Import FmtGen FmtGenProps.
+
+(* over the REGENERATED format_trivia of expressions/trivia.py (tools/fmt2v.py, Dyn/FmtGenProps.v): on lists of comments and layout markers the
+   loop never fails and renders exactly the model's format_trivia of the list in which every inline comment that follows an emitted line has
+   become an own-line comment — every comment once, in order; and where no such comment exists it IS the model's function, for every list *)
+Theorem C03_format_trivia_spec : forall l indent,
+  format_trivia_gen (map of_triv l) indent = Some (format_trivia (demote l false) indent).
+Proof. exact format_trivia_gen_spec. Qed.
+Print Assumptions C03_format_trivia_spec.
+
+Theorem C03_format_trivia_is_the_models : forall l indent,
+  late_inline_free l false = true -> format_trivia_gen (map of_triv l) indent = Some (format_trivia l indent).
+Proof. exact format_trivia_gen_is_model. Qed.
+Print Assumptions C03_format_trivia_is_the_models.
+
+Theorem C03_trim_is_the_models : forall l r, trim_trailing_layout_newline_gen (map of_triv l) r = trim_trailing l r.
+Proof. exact trim_gen_is_model. Qed.
+Print Assumptions C03_trim_is_the_models.
